@@ -7,7 +7,7 @@ OBLIGATIONS = [
        variants=[{'N': n} for n in (0, 1, 2, 3)], unwind=6, timeout=400, mem_gb=8),
     Ob('group_queries', 'C14/group.c', ['_ZN5gdstk6insideERKNS_5ArrayINS_4Vec2EEERKNS0_IPNS_7PolygonEEEPb', '_ZN5gdstk10all_insideERKNS_5ArrayINS_4Vec2EEERKNS0_IPNS_7PolygonEEE',
         '_ZN5gdstk10any_insideERKNS_5ArrayINS_4Vec2EEERKNS0_IPNS_7PolygonEEE', P + '11contain_allERKNS_5ArrayINS_4Vec2EEE', P + '11contain_anyERKNS_5ArrayINS_4Vec2EEE'],
-       stubs=[P + '7containENS_4Vec2E'], ir='ni', model='ie', real=False,
+       stubs=[P + '7containENS_4Vec2E'], ir='ni', model='ie', retry_defines=['-DT_ORACLE'],
        what='inside / all_inside / any_inside / contain_all / contain_any equal OR / AND-of-OR / OR / AND / OR of Polygon::contain, for an arbitrary contain satisfying the bounding-box lemma',
        bound='NP x NQ in {0,1,2} x {0,1,2} polygons x points (empty groups included), triangles with coordinates -3..3, points -4..4',
        variants=[{'OP': o, 'NP': a, 'NQ': b} for o in range(4) for a in (0, 1, 2) for b in (0, 1, 2) if not (o == 3 and a == 0)], unwind=6, timeout=300),
